@@ -438,6 +438,9 @@ func (m *Monitors) checkAcceptance(n *Node, msg *Msg, pre Pre) {
 	if meta.H != pre.H {
 		return
 	}
+	if n.Interrupted {
+		return // an election / sync told this peer to leave its position while it was handling the message: not "a matching state" any more
+	}
 	// guard: after an agreement violation peers may be on different chains; C11 does not apply then
 	sender := w.Nodes[msg.From]
 	if fakes.BlockID(m.prevBlockOf(sender, meta.H)) != fakes.BlockID(m.prevBlockOf(n, meta.H)) {
